@@ -23,6 +23,10 @@ def order(short=False):
 
 EXTRA = {
  "invokeExpr": ["//@ traced runInfo.expr -> runInfo.err; runInfo.rv"],
+ "callExpr": ['// C16: `go f(args)` on the reflect path: the arguments were built (every argument expression evaluated and converted,',
+              '// by makeCallArgs in the calling goroutine) before the goroutine is started',
+              '//@ traces makeCallArgs',
+              '//@ spawnsite [C16 C07] argsfirst: ncalls() >= 1 && calleeIs(ncalls()-1, "makeCallArgs") && arg(ncalls()-1) == callExpr && res(ncalls()-1) == nil'],
  "funcExpr": ["// C04: a function value captures the scope it is DEFINED in (not a copy, not a child made once), the options and the node",
               "//@ closure funcExpr$1 [C04] defscope: envFunc == runInfo.env && options == runInfo.options && funcExpr == as(runInfo.expr, \"*ast.FuncExpr\")"],
  "int64Value": ["//@ autoprops C01 C05", "//@ ensures [C05] val: rvKind(result) == reflect.Int64 && rvInt(result) == v && rvValid(result) && !rvIsNil(result)"],
@@ -106,12 +110,58 @@ EXTRA = {
    '//@ loop 1 invariant ncalls() == 2*(rangeindex#1 + 1) && rangeindex#1 < len(expr.Keys) && (forall k int :: 0 <= k && k <= rangeindex#1 ==> calleeIs(2*k, "invokeExpr") && arg(2*k) == expr.Keys[k] && calleeIs(2*k+1, "invokeExpr") && arg(2*k+1) == expr.Values[k]) && (forall k int :: 0 <= k && k < ncalls() ==> res(k) == nil)'],
  "anonCallExpr": [
    '//@ ensures [C07] order: ncalls() >= 1 && ncalls() <= 2 && calleeIs(0, "invokeExpr") && arg(0) == old(as(runInfo.expr, "*ast.AnonCallExpr")).Expr && (ncalls() == 2 ==> res(0) == nil && calleeIs(1, "invokeExpr") && typeis(arg(1), "*ast.CallExpr") && as(arg(1), "*ast.CallExpr").SubExprs == old(as(runInfo.expr, "*ast.AnonCallExpr")).SubExprs)'],
- "convertReflectValueToType": ['//@ requires [C01] okvin: rvValid(rv) && rt != nil', '//@ ensures [C01] okv: rvValid(result.0)', '//@ ensures [C10 C11] keep: result.1 != nil ==> result.0 == rv'],
+ "convertReflectValueToType": ['//@ traced_optin rv -> result.1; result.0; rt', '//@ requires [C01] okvin: rvValid(rv) && rt != nil', '//@ ensures [C01] okv: rvValid(result.0)', '//@ ensures [C10 C11] keep: result.1 != nil ==> result.0 == rv',
+   '// C11: a value whose type already is the target type, or whose target is interface{}, crosses unchanged; otherwise, when Go',
+   '// itself can convert the value to the target type, the result is Go\'s conversion',
+   '//@ ensures [C11 C10] identity: rt == interfaceType || rvTypeOf(rv) == rt ==> result.1 == nil && result.0 == rv',
+   '//@ ensures [C11 C10] goconv: rt != interfaceType && rvTypeOf(rv) != rt && typeConvertible(rvTypeOf(rv), rt) ==> result.1 == nil && result.0 == rvConvert(rv, rt)'],
  "convertSliceOrArray": ['//@ requires [C01] okvin: rvValid(rv) && rt != nil', '//@ ensures [C01] okv: rvValid(result.0)'],
  "convertMap": ['//@ requires [C01] okvin: rvValid(rv) && rt != nil', '//@ ensures [C01] okv: rvValid(result.0)'],
  "convertVMFunctionToType": ['//@ requires [C01] okvin: rvValid(rv) && rt != nil', '//@ ensures [C01] okv: rvValid(result.0)'],
+ "invokeDerefExpr": ['// C20: the operand is what the evaluated expression denotes, also when it was read from an interface-typed element',
+   '//@ ensures [C20] ptr: ncalls() == 1 && res(0) == nil && rvKind(unwrap(res2(0))) == reflect.Ptr ==> runInfo.err == nil && runInfo.rv == rvElem(unwrap(res2(0)))',
+   '//@ ensures [C20] nonptr: ncalls() == 1 && res(0) == nil && rvKind(unwrap(res2(0))) != reflect.Ptr ==> runInfo.err != nil'],
+ "invokeIncludeExpr": ['// C06/C20/C07: `item in list` evaluates item, then list, and answers whether vm.equal holds between the item and some element',
+   '// of the list (the same relation as == and switch); the list is what the expression denotes (unwrapped)',
+   '//@ ensures [C07] order: ncalls() <= 2 && (ncalls() >= 1 ==> arg(0) == expr.ItemExpr) && (ncalls() == 2 ==> arg(1) == expr.ListExpr && res(0) == nil)',
+   '//@ ensures [C20] listkind: ncalls() == 2 && res(1) == nil && (rvKind(unwrap(res2(1))) == reflect.Slice || rvKind(unwrap(res2(1))) == reflect.Array) ==> runInfo.err == nil',
+   '//@ ensures [C06 C20] member: runInfo.err == nil && ncalls() == 2 ==> (runInfo.rv == trueValue || runInfo.rv == falseValue) && ((runInfo.rv == trueValue) == (exists j int :: 0 <= j && j < rvLen(unwrap(res2(1))) && equalR(res2(0), rvIndexV(unwrap(res2(1)), j))))',
+   '//@ loop 0 invariant 0 <= i && ncalls() == 2 && res(0) == nil && res(1) == nil && itemExpr == res2(0) && (forall j int :: 0 <= j && j < i ==> !equalR(res2(0), rvIndexV(runInfo.rv, j)))'],
+ "invokeChanExpr": ['// C16: `<- ch` receives from the channel the operand denotes; `ch <- v` converts v to the element type of the channel the',
+   '// left operand denotes and sends exactly that converted value once (the Select calls are the only channel operations);',
+   '// a receive that finds the channel closed and drained yields nil, an interruption yields ErrInterrupt (C02).',
+   '//@ traces reflect.Select convertReflectValueToType',
+   '//@ callsite reflect.Select * [C16] cases: len(arg0) == 2 && ite(arg0[1].Dir == reflect.SelectSend, lhs == unwrap(res2(1)) && arg0[1].Chan == lhs && calleeIs(ncalls()-1, "convertReflectValueToType") && res(ncalls()-1) == nil && arg0[1].Send == res2(ncalls()-1) && res3(ncalls()-1) == typeElem(rvTypeOf(lhs)) && (arg(ncalls()-1) == unwrap(res2(0)) || (calleeIs(ncalls()-2, "reflect.Select") && res(ncalls()-2) == 0 && arg(ncalls()-1) == res2(ncalls()-2))), arg0[1].Dir == reflect.SelectRecv && arg0[1].Chan == unwrap(res2(0)))',
+   '//@ ensures [C16] recv: expr.LHS == nil && ncalls() == 2 && calleeIs(1, "reflect.Select") && res(1) == 0 ==> runInfo.err == nil && runInfo.rv == res2(1)',
+   '//@ ensures [C16] closednil: expr.LHS == nil && ncalls() == 2 && calleeIs(1, "reflect.Select") && res(1) == 1 ==> runInfo.err == nil && runInfo.rv == nilValue',
+   '//@ ensures [C16 C02] interrupted: ncalls() >= 1 && calleeIs(ncalls()-1, "reflect.Select") && res(ncalls()-1) == 2 ==> runInfo.err == ErrInterrupt',
+   '//@ ensures [C16] onesend: expr.LHS != nil && runInfo.err == nil && rvKind(unwrap(res2(0))) != reflect.Chan ==> ncalls() == 4 && calleeIs(3, "reflect.Select") && res(3) == 0'],
+ "invokeItemExpr": ['// C10: x[i] on a slice, array or string with an integer index in range reads exactly element i; an index out of range',
+   '// (negative, equal to or beyond the length) is an error; on a map it is getMapIndex(key, map); anything else is an error',
+   '//@ ensures [C07] order: ncalls() <= 2 && (ncalls() >= 1 ==> arg(0) == expr.Item) && (ncalls() == 2 ==> arg(1) == expr.Index && res(0) == nil)',
+   '//@ ensures [C10 C20] elem: runInfo.err == nil && ncalls() == 2 && (rvKind(unwrap(res2(0))) == reflect.Slice || rvKind(unwrap(res2(0))) == reflect.Array) && rvKind(res2(1)) == reflect.Int64 ==> 0 <= rvInt(res2(1)) && rvInt(res2(1)) < rvLen(unwrap(res2(0))) && runInfo.rv == rvIndexV(unwrap(res2(0)), rvInt(res2(1)))',
+   '//@ ensures [C10 C20] range: ncalls() == 2 && res(1) == nil && (rvKind(unwrap(res2(0))) == reflect.Slice || rvKind(unwrap(res2(0))) == reflect.Array || rvKind(unwrap(res2(0))) == reflect.String) && rvKind(res2(1)) == reflect.Int64 && (rvInt(res2(1)) < 0 || rvInt(res2(1)) >= rvLen(unwrap(res2(0)))) ==> runInfo.err != nil && runInfo.rv == nilValue',
+   '//@ ensures [C10 C20] inrange: ncalls() == 2 && res(1) == nil && (rvKind(unwrap(res2(0))) == reflect.Slice || rvKind(unwrap(res2(0))) == reflect.Array) && rvKind(res2(1)) == reflect.Int64 && 0 <= rvInt(res2(1)) && rvInt(res2(1)) < rvLen(unwrap(res2(0))) ==> runInfo.err == nil',
+   '//@ ensures [C10] other: ncalls() == 2 && res(1) == nil && rvKind(unwrap(res2(0))) != reflect.Slice && rvKind(unwrap(res2(0))) != reflect.Array && rvKind(unwrap(res2(0))) != reflect.String && rvKind(unwrap(res2(0))) != reflect.Map ==> runInfo.err != nil'],
+ "invokeLetItemSlice": ['// C10: x[i] = v on a slice or array: in range, exactly element i receives v converted to the element type; at i == len',
+   '// the converted value is appended and the grown slice assigned back to x; any error (non-numeric or out-of-range index,',
+   '// unassignable element, inconvertible value) leaves the container untouched: no reflect store happens',
+   '//@ traces (reflect.Value).Set convertReflectValueToType reflect.Append',
+   '//@ ensures [C10] untouched: runInfo.err != nil ==> (forall k int :: 0 <= k && k < ncalls() ==> !calleeIs(k, "(reflect.Value).Set") && !calleeIs(k, "reflect.Append"))',
+   '//@ ensures [C10] stored: runInfo.err == nil && rvKind(old(runInfo.rv)) == reflect.Int64 && rvInt(old(runInfo.rv)) != rvLen(item) ==> 0 <= rvInt(old(runInfo.rv)) && rvInt(old(runInfo.rv)) < rvLen(item) && ncalls() == 2 && calleeIs(0, "convertReflectValueToType") && arg(0) == value && res(0) == nil && res3(0) == rvTypeOf(rvIndexV(item, rvInt(old(runInfo.rv)))) && calleeIs(1, "(reflect.Value).Set") && arg(1) == rvIndexV(item, rvInt(old(runInfo.rv))) && res(1) == res2(0)',
+   '//@ ensures [C10] appended: runInfo.err == nil && rvKind(old(runInfo.rv)) == reflect.Int64 && rvInt(old(runInfo.rv)) == rvLen(item) ==> ncalls() >= 2 && calleeIs(0, "convertReflectValueToType") && arg(0) == value && res(0) == nil && res3(0) == typeElem(rvTypeOf(item)) && calleeIs(1, "reflect.Append") && arg(1) == item && res2(1) == res2(0)'],
+ "invokeLetItemMap": ['// C10: m[k] = v: the key is converted to the key type and must be hashable, the value is converted to the element type; any',
+   '// of these failing is an error and the map is not written',
+   '//@ traces (reflect.Value).SetMapIndex',
+   '//@ ensures [C10] untouched: runInfo.err != nil ==> ncalls() == 0'],
  "isHashable": ['//@ ensures [C01 C10] def: result == hashableKey(v)'],
- "getMapIndex": ['//@ requires [C01] okvin: rvValid(key) && rvKind(aMap) == reflect.Map', '//@ ensures [C01] okv: rvValid(result)'],
+ "getMapIndex": ['//@ requires [C01] okvin: rvValid(key) && rvKind(aMap) == reflect.Map', '//@ ensures [C01] okv: rvValid(result)',
+   '// C10: reading a map never fails: a nil map, a key that cannot be converted to the key type, an unhashable key and a missing',
+   '// key all read as nil; a present key reads the stored value (unwrapped from interface{} element types)',
+   '//@ traces convertReflectValueToType (reflect.Value).MapIndex',
+   '//@ ensures [C10] nilmap: rvIsNil(aMap) ==> result == nilValue && ncalls() == 0',
+   '//@ ensures [C10] badkey: ncalls() == 1 && calleeIs(0, "convertReflectValueToType") && (res(0) != nil || !hashableKey(res2(0))) ==> result == nilValue',
+   '//@ ensures [C10] lookup: ncalls() == 2 ==> calleeIs(0, "convertReflectValueToType") && arg(0) == key && res(0) == nil && res3(0) == typeKey(rvTypeOf(aMap)) && calleeIs(1, "(reflect.Value).MapIndex") && arg(1) == aMap && res2(1) == res2(0) && (!rvValid(res(1)) ==> result == nilValue) && (rvValid(res(1)) && typeElem(rvTypeOf(aMap)) != interfaceType ==> result == res(1))'],
  "appendSlice": ['//@ ensures [C01] okv: rvValid(result.0)'],
  "makeValue": ['//@ requires [C01] t != nil', '//@ ensures [C01] okv: rvValid(result.0)'],
  "equal": ['//@ free_ensures rel: result == equalR(lhsV, rhsV)', '//@ ensures [C06] nil: (nilV(lhsV) || nilV(rhsV)) ==> result == (nilV(lhsV) && nilV(rhsV))',
@@ -147,6 +197,10 @@ for f in pure:
     if f in ERR:
         ls.append("//@ ensures [C08] nosentinel: notSentinel(result.1) && result.1 != ErrInterrupt")
     if f == "processCallReturnValues":
+        ls += ["// C11: all results of a Go function come back: none -> nil, one -> that value (several -> a list, not under contract)",
+               "//@ ensures [C11] none: !isRunVMFunction && len(rvs) == 0 ==> result.0 == nilValue && result.1 == nil",
+               "//@ ensures [C11] one: !isRunVMFunction && len(rvs) == 1 ==> result.0 == rvs[0] && result.1 == nil",
+               "//@ ensures [C11] goerr: !isRunVMFunction ==> result.1 == nil"]
         ls += ["// VM-function protocol (ASSUMED for host functions with the VM signature, proved for funcExpr's closures): the error a",
                "// function value returns is never a control-flow sentinel, and it is non-nil when a cancellation poll fired inside it",
                "//@ free_ensures [C08] nosentinel: notSentinel(result.1)",
@@ -162,16 +216,21 @@ out.append('''//@ func (*Error).Error
 //@ func (*runInfoStruct).makeCallArgs
 //@ props C04 C02 C08
 //@ like template.evalExpr
+//@ traced_optin callExpr -> runInfo.err
 //@ requires node: callExpr != nil && rt != nil
 //@ ensures [C07] order: evalsPrefix(callExpr.SubExprs) && okButLast()
 //@ loop 0 invariant (args == nil || fresh(base(args))) && ncalls() == indexExpr && 0 <= indexExpr && evalsPrefix(callExpr.SubExprs) && (forall k int :: 0 <= k && k < ncalls() ==> res(k) == nil)
 //@ loop 1 invariant (args == nil || fresh(base(args))) && ncalls() == indexExpr + 1 && evalsPrefix(callExpr.SubExprs) && (forall k int :: 0 <= k && k < ncalls() ==> res(k) == nil)
 //@ loop 2 invariant (args == nil || fresh(base(args))) && ncalls() == indexExpr && 0 <= indexExpr && evalsPrefix(callExpr.SubExprs) && (forall k int :: 0 <= k && k < ncalls() ==> res(k) == nil)
+// C20: f(xs...) is rejected as "not a list" only when what xs DENOTES (unwrapped) is neither a slice nor an array
+//@ callsite newStringError ~call_is_variadic_but_last_parameter [C20] spreadlist: ncalls() >= 1 && rvKind(unwrap(res2(ncalls()-1))) != reflect.Slice && rvKind(unwrap(res2(ncalls()-1))) != reflect.Array
 
 //@ func (*runInfoStruct).callVMFunctionDirect
 //@ props C04 C02 C08
 //@ like template.evalExpr
 //@ requires node: callExpr != nil
+// C16: `go f(args)` evaluates every argument, in the calling goroutine, before the new goroutine is started
+//@ spawnsite [C16 C07] argsfirst: ncalls() == len(callExpr.SubExprs) && evalsPrefix(callExpr.SubExprs) && (forall k int :: 0 <= k && k < ncalls() ==> res(k) == nil)
 //@ ensures [C07 C08 C02] nothandled: !handled ==> runInfo.err == old(runInfo.err) && runInfo.rv == old(runInfo.rv) && polls == old(polls) && fired == old(fired) && ncalls() == 0
 //@ ensures [C07] order: evalsPrefix(callExpr.SubExprs) && okButLast()
 //@ loop 0 invariant fresh(base(args)) && ncalls() == rangeindex + 1 && rangeindex < len(callExpr.SubExprs) && evalsPrefix(callExpr.SubExprs) && (forall k int :: 0 <= k && k < ncalls() ==> res(k) == nil)
